@@ -16,7 +16,48 @@ FIX_COMMITS = ["d6ae502 (passive start-up cancellation: port/listener leak)",
                "b2387d7 (undecodable PASS line leaked a password byte to the logs)",
                "8aa468d (pending RNFR survived a re-login)", "958879d (pipelined PASV/EPSV lost a data port)",
                "369b607 (MemoryPathIO.rename of a missing source onto itself)",
-               "2022c75 (concurrent RETRs of one file on MemoryPathIO)"]
+               "2022c75 (concurrent RETRs of one file on MemoryPathIO)",
+               "f70594b (pipelined USER/PASS overlapped with later commands when the user manager suspends)",
+               "ec756de (data connection accepted during session teardown never closed)",
+               "732de19 (Throttle.wait helper tasks outlived a cancelled transfer / Server.close())",
+               "5b1a18b (LIST line without a name silently dropped as a '.' entry)"]
+
+# dimensions added after the fourth wave of seeded changes (plug-in APIs as part of the input space)
+EXTRA = {
+    "C01": " Also on custom backends the PathIO API allows: written data reaching the file only at close() with a close() "
+           "that suspends (read-back by another session explored right after the completion reply), and read() returning "
+           "fewer bytes than asked for.",
+    "C02": " Also: a pipelined CWD while the previous command's path checks are suspended in the backend (every "
+           "completion order with <= d deviations): each mutating backend call must name a path for which the "
+           "permission lookup was made.",
+    "C03": " Also with a user manager whose get_user/authenticate/notify_logout really suspend: every pipelined burst of "
+           "2-3 login commands and probes from 5 pre-states under every completion order with <= d deviations - never "
+           "more authority (served probes, final login) than executing the burst in order.",
+    "C04": " Also: a pipelined CWD while the path checks of the previous command wait for executor jobs (every completion "
+           "order with <= d deviations) or for one slow operation kind; effect oracle: the tree changes only where "
+           "writing is allowed and nothing of an unreadable location is revealed.",
+    "C05": " Also every command of the alphabet on a server with path_timeout whose backend calls outlast it: exactly one "
+           "final reply, session continues.",
+    "C06": " The line alphabet includes the characters str.splitlines() treats as boundaries (VT, FF, GS, NEL, LS, lone CR).",
+    "C07": " Also: the k-th backend call of a listing fails (k=1..15, MLSD and LIST): a listing reported complete has every "
+           "entry exactly once.",
+    "C09": " Also with backends (client and server side) whose read() returns 1 or 3 bytes at a time.",
+    "C10": " Also with a suspending user manager: BFS on it and disconnect / pipelined-USER races inside its awaits; the "
+           "alphabet includes an empty line and an unknown verb.",
+    "C11": " Also on an IPv6 control connection (PASV answered 503, EPSV served).",
+    "C12": " Also on a speed-limited server and with a suspending user manager, with additional cuts placed before every "
+           "advance of virtual time (the server sleeps in a throttle pause or a slow backend call); the clock is frozen at "
+           "the cut itself.",
+    "C14": " Also with a second data connection opened in advance for the next transfer just before the ABOR, and that "
+           "transfer then run without a new PASV.",
+    "C16": " Also with a user manager whose logout notification takes 5 s: the sockets must still be released at the bound.",
+    "C17": " Every backend call on a session's own directory must come from the PathIO instance created for that session's "
+           "Connection (custom backends read it).",
+    "C18": " Including uploads sent in two pieces with an MLST of the same file between them.",
+    "C19": " LIST lines that end before the file name are explicit cases (reported, not dropped as '.').",
+    "C20": " Also what follows an accepted login (work, re-login) alone and next to a second session of the same account "
+           "that quits or vanishes.",
+}
 
 ENV_NOTE = ("Trusted base: the environment model (vf/simloop.py: selector, TCP, clock, executor) and the harness-side "
             "oracles; the code explored is the unmodified aioftp imported from /repo/src. Bounds are stated in the "
